@@ -4,13 +4,14 @@ type universe of `Gossamer.Lib.Scale`, AFTER the `fix:` commits listed in harnes
 
 Primitive layer: one Lean function per Go function, with Go's integer conversions written out as
 `% 2^k` and Go's reader semantics made explicit:
-  * `readByte` / `readFull k`  = `ds.ReadByte()` / `io.ReadFull(ds.Reader, buf)` (all integer paths);
-  * `bufRead L`                = `ds.Read(b)` on a `bytes.Buffer` as used by `decodeBytes`: an
-    empty buffer is `EOF`, otherwise whatever is there is copied and the REST OF `b` STAYS ZERO
-    (known finding `bytes-short-read`), after `make([]byte, L)` for the declared `L`
-    (known finding `bytes-alloc`).
+  * `readFull k`  = `io.ReadFull(ds.Reader, buf)` / `ds.ReadByte()` (all integer paths);
+  * `decBytes`    = `decodeBytes`, which keeps ONE `ds.Read(b)` on the `bytes.Buffer`: an empty
+    buffer is `EOF`, otherwise whatever is there is copied and the REST OF `b` STAYS ZERO (known
+    finding `bytes-short-read`), after `make([]byte, L)` for the declared `L` (known finding
+    `bytes-alloc`).
 Every primitive decode reports `req`, the largest buffer it allocated for reading, and `zf`,
-whether a short read was zero-filled.
+whether a short read was zero-filled.  Value (`…V`) and buffer size (`…Req`) of the compact
+decoders are separate functions of the input (the size depends on the prefix byte only).
 
 Structural layer: the reflect-driven walk of `marshal`/`unmarshal` (struct fields in
 `fieldScaleIndices` order, pointers as options, `Result`, varying data types, arrays, slices) is
